@@ -2297,6 +2297,11 @@ impl SubRule {
             let mut m = true;
             while *state_index < states.len() {
                 #[cfg(feature = "verif")] crate::verif::tick(78);
+                if word.out_of_bounds(*pos) && states[*state_index].kind != ParseElement::SyllBound {
+                    // the word has run out with elements still to match
+                    m = false;
+                    break;
+                }
                 if !self.input_match_item(captures, pos, state_index, word, states)? {
                     m = false;
                     break;
